@@ -400,7 +400,7 @@ def first_difference(obs, exp, fields):
                 for j, (a, b) in enumerate(zip(obs["atoms"], exp["atoms"])):
                     for f in ("src", "sym", "chain", "asym", "pos"):
                         if a.get(f) != b.get(f):
-                            return f"atoms[{j}].{f}"
+                            return f"atoms.{f}"
             return k
     return None
 
